@@ -157,7 +157,133 @@ def memset_hook(exe, st, node, args):
     return dst
 
 
+# ---- libm in 'real' mode: algebraic abstractions (each is a listed assumption) ---------------------------------------
+def _memo(exe, kind, arg, mk):
+    tbl = exe.__dict__.setdefault('_math_memo', {})
+    key = (kind, simp(arg).sexpr())
+    if key not in tbl:
+        tbl[key] = mk()
+    return tbl[key]
+
+
+def sqrt_hook(exe, st, node, args):
+    x = args[0]
+    if exe.sem.num_mode == 'fp':
+        return z3.fpSqrt(z3.RNE(), x)
+    if exe.sem.num_mode != 'real':
+        raise FrontEndError('sqrt in opaque mode')
+    exe.assumed.add('sqrt(x) is the unique t >= 0 with t*t == x (real arithmetic)')
+    sx = simp(x)
+    if z3.is_rational_value(sx) and sx.numerator_as_long() == 0:
+        return z3.RealVal(0)
+
+    def mk():
+        exe.nsym += 1
+        t = z3.Real('sqrt#%d' % exe.nsym)
+        exe.axioms.append(z3.And(t >= 0, t * t == x))
+        return t
+    exe.emit('%s/sqrt_domain@%s' % (exe.fn_stack[-1], exe._loc(node)), x >= 0, st, kind='arith')
+    t = _memo(exe, 'sqrt', x, mk)
+    for a in exe.axioms:
+        st.assume(a)
+    del exe.axioms[:]
+    return t
+
+
+def _sincos(exe, st, x):
+    if exe.sem.num_mode != 'real':
+        raise FrontEndError('sin/cos outside real mode')
+    exe.assumed.add('sin(x), cos(x) are some pair (s, c) with s*s + c*c == 1, and (0, 1) at x == 0 (real arithmetic)')
+    sx = simp(x)
+    if z3.is_rational_value(sx) and sx.numerator_as_long() == 0:
+        return z3.RealVal(0), z3.RealVal(1)
+
+    def mk():
+        exe.nsym += 1
+        s, c = z3.Real('sin#%d' % exe.nsym), z3.Real('cos#%d' % exe.nsym)
+        exe.axioms.append(s * s + c * c == 1)
+        exe.axioms.append(z3.Implies(x == 0, z3.And(s == 0, c == 1)))
+        return s, c
+    r = _memo(exe, 'sincos', x, mk)
+    for a in exe.axioms:
+        st.assume(a)
+    del exe.axioms[:]
+    return r
+
+
+def sin_hook(exe, st, node, args):
+    return _sincos(exe, st, args[0])[0]
+
+
+def cos_hook(exe, st, node, args):
+    return _sincos(exe, st, args[0])[1]
+
+
+def fabs_hook(exe, st, node, args):
+    x = args[0]
+    if exe.sem.num_mode == 'fp':
+        return z3.fpAbs(x)
+    return z3.If(x >= 0, x, -x)
+
+
+def fmax_hook(exe, st, node, args):
+    a, b = args
+    if exe.sem.num_mode == 'fp':
+        return z3.fpMax(a, b)
+    return z3.If(a >= b, a, b)
+
+
+def fmin_hook(exe, st, node, args):
+    a, b = args
+    if exe.sem.num_mode == 'fp':
+        return z3.fpMin(a, b)
+    return z3.If(a <= b, a, b)
+
+
+def exp_hook(exe, st, node, args):
+    if exe.sem.num_mode != 'real':
+        raise FrontEndError('exp outside real mode')
+    exe.assumed.add('exp(x) is some positive real, 1 at x == 0, strictly increasing (real arithmetic)')
+    x = args[0]
+
+    def mk():
+        exe.nsym += 1
+        e = z3.Real('exp#%d' % exe.nsym)
+        exe.axioms.append(z3.And(e > 0, z3.Implies(x == 0, e == 1), z3.Implies(x > 0, e > 1), z3.Implies(x < 0, e < 1)))
+        return e
+    r = _memo(exe, 'exp', x, mk)
+    for a in exe.axioms:
+        st.assume(a)
+    del exe.axioms[:]
+    return r
+
+
+for _h in (sqrt_hook, sin_hook, cos_hook, fabs_hook, fmax_hook, fmin_hook, exp_hook):
+    _h.pure = True
+
+def strnlen_hook(exe, st, node, args):
+    """strnlen on a buffer whose bytes are concrete in this state."""
+    p, mx = args
+    mxs = simp(mx)
+    if not (z3.is_int_value(mxs) or z3.is_bv_value(mxs)):
+        raise FrontEndError('strnlen with symbolic bound')
+    n = 0
+    for k in range(mxs.as_long()):
+        c = simp(st.load(exe._normalize(exe.ptr_add(p, k))))
+        if not (z3.is_int_value(c) or z3.is_bv_value(c)):
+            raise FrontEndError('strnlen over symbolic bytes')
+        if c.as_long() == 0:
+            break
+        n += 1
+    return exe.sem.const(n, exe.ctype(node))
+
+
+strnlen_hook.pure = True
+
+MATH_HOOKS = {'strnlen': strnlen_hook, 'sqrt': sqrt_hook, 'sin': sin_hook, 'cos': cos_hook, 'fabs': fabs_hook, 'fmax': fmax_hook, 'fmin': fmin_hook, 'exp': exp_hook}
+
 HOOKS = {'memcpy': memcpy_hook, 'memmove': memcpy_hook, 'memset': memset_hook,
          '__builtin_memcpy': memcpy_hook, '__builtin_memset': memset_hook,
          '__builtin___memcpy_chk': lambda exe, st, node, args: memcpy_hook(exe, st, node, args[:3]),
          '__builtin___memset_chk': lambda exe, st, node, args: memset_hook(exe, st, node, args[:3])}
+HOOKS.update(MATH_HOOKS)
